@@ -154,6 +154,19 @@ func (r *runner) doClose(cl *CloseSpec, pos int, with []Op) {
 		r.partial(r.result(true))
 	}
 	allow, why := r.closeAllowance(ctx, with)
+	done2 := make(chan struct{})
+	if cl.Kind == "Close" && cl.Concurrent && allow == 0 && len(with) == 0 {
+		// a second caller of Router.Close at the same moment (a goroutine waiting
+		// in sync.Once is not durably blocked: only when the close needs no time)
+		go func() {
+			defer close(done2)
+			defer r.recoverAPI("panic", "Close (second concurrent caller)")
+			<-start
+			r.rtr.Close()
+		}()
+	} else {
+		close(done2)
+	}
 	close(start)
 	// Virtual time only advances when every goroutine of the bubble is durably
 	// blocked: if this 1 ns timer fires before the call returned, the call is
@@ -173,6 +186,13 @@ func (r *runner) doClose(cl *CloseSpec, pos int, with []Op) {
 		r.violation("close-hang", cl.Kind+" did not return within 2 h of virtual time", true)
 	}
 	tm.Stop()
+	tm2 := time.NewTimer(closeLimit)
+	select {
+	case <-done2:
+	case <-tm2.C:
+		r.violation("close-hang", "a second concurrent Router.Close did not return within 2 h of virtual time", true)
+	}
+	tm2.Stop()
 	r.mu.Lock()
 	lat := r.closeRet - r.closeStart
 	returned := r.closeRet >= 0 && r.closeStart >= 0
@@ -374,6 +394,37 @@ func (r *runner) lateAttach(realm string) {
 }
 
 // lateAPI: AddRealm / RemoveRealm after Close must return without a panic.
+// closeAgain: Router.Close is idempotent — once more, then from two goroutines
+// at once.
+func (r *runner) closeAgain() {
+	for round, n := range []int{1, 2} {
+		var dones []chan struct{}
+		start := make(chan struct{})
+		for k := 0; k < n; k++ {
+			done := make(chan struct{})
+			dones = append(dones, done)
+			go func() {
+				defer close(done)
+				defer r.recoverAPI("late-api", fmt.Sprintf("Close after Close (round %d)", round))
+				<-start
+				r.rtr.Close()
+			}()
+		}
+		close(start)
+		tm := time.NewTimer(time.Hour)
+		for _, done := range dones {
+			select {
+			case <-done:
+			case <-tm.C:
+				r.violation("late-api", "a further Router.Close did not return within 1 h", true)
+			}
+		}
+		tm.Stop()
+	}
+	r.orc("oracle 4 (Close again, sequentially and from two goroutines): expected to return without panic; failures so far: %v", r.hasFail("late-api"))
+	synctest.Wait()
+}
+
 func (r *runner) lateAPI() {
 	for _, name := range []string{"AddRealm", "RemoveRealm"} {
 		done := make(chan struct{})
@@ -644,6 +695,7 @@ func (r *runner) finishC06() {
 		r.leakCheck("goroutine-leak")
 		if cl.Kind == "Close" && !r.hasFail("goroutine-leak") {
 			r.lateAttach(r.h.Realms[0])
+			r.closeAgain()
 			r.lateAPI()
 		}
 	}
